@@ -206,6 +206,11 @@ def k3_shapes(tier):
     out += [dict(base, deviations=0, reorg_limit=2, initial=[cbA, cbB, sA, sAB, s2], script=[('reorg', 2, [cbC, sAB, s2])]),
             dict(base, deviations=0, reorg_limit=3, initial=[cbA, cbB, sA, sAB, s2, cbC],
                  script=[('block', sA), ('reorg', 3, [cbC, sAB, cbA]), ('reorg', 3, [sA, cbB, s2, cbA])])]
+    # blocks that span several read chunks (chunk size scaled from 25 MB to 150 / 90 bytes): the backed-out blocks hold
+    # several spending transactions in different chunks, prevouts of different owners and values
+    s3 = {'cb': 'C', 'txs': [{'ins': 1, 'outs': 'A'}, {'ins': 1, 'outs': 'B'}, {'ins': 1, 'outs': 'AC'}]}
+    out += [dict(base, deviations=0, chunk_size=150, initial=[cbA, cbB, cbC, cbA, sAB, s3], script=[('reorg', 2, [cbC, sA, s2])]),
+            dict(base, deviations=0, chunk_size=90, initial=[cbA, cbB, cbC, cbA, cbB, s3, s3], script=[('reorg', 2, [cbC, cbB, cbA])])]
     if tier == 'thorough':
         out += [
             dict(base, deviations=1, initial=[cbA, cbB, cbC, sA, sAB, cbA, s2, sA, sAB, cbB, s2, sA, sAB],
@@ -228,7 +233,7 @@ KERNELS = [
            bounds='a reorg of depth 6 on a 13-block chain (orphaned blocks beyond the 5-block file cache are fetched '
                   'again), reorgs of depth 2 natural / forced with 1 (quick) / 2 (thorough) schedule deviations, a forced '
                   'reorg of 7; two stories with reorgs exactly as deep as the reorg limit (2, 3) after a multi-block catch-up; '
-                  'transactions are really serialised, ids are their real double SHA-256',
+                  'two stories with the read chunk scaled down to 150 / 90 bytes (blocks span several chunks); transactions are really serialised, ids are their real double SHA-256',
            outside='chain content is concrete here (K1 carries the symbolic content); more deviations',
            assumptions=['daemon RPCs (including get_block, which writes the block file), sleeps and worker threads are '
                         'stubs (vlib/fullsim.py)', 'LevelDB modelled by MemStore, files by MemFS (symbolic mode)'],
